@@ -34,6 +34,9 @@ Conventions (DESIGN.md §4):
   `fixMistakes`, and `SLASH_SQUEEZE_RE.sub("/", path)` which is the hand-written
   `UrlParts.squeezeSlashes` (the round-trip theorems reason about both); the driver runs the
   generic substitution next to them on every input (three-way comparison with the real `re`).
+* `parse_facebook_url` routes the path of `safe_urlsplit(url)` after
+  `"/".join(part.strip() for part in path.split("/"))` (`stripSegments`: the blanks around each
+  segment are dropped) and the slash squeeze (`squeezePath`).
 -/
 namespace Ural.Facebook
 open Ural.Py Ural
